@@ -1,0 +1,111 @@
+//go:build verif
+
+// Package verifhook provides tracing hooks for the verification machinery.
+//
+// With the `verif` build tag, Emit appends one JSON line per event to the file
+// named by the VERIF_TRACE environment variable (opened O_APPEND, one write
+// per line, so that several processes can share one totally ordered trace),
+// and Gate lets a harness delay or block the calling goroutine at a named
+// point. With neither VERIF_TRACE, VERIF_DELAY nor an in-process sink set, a
+// verif build behaves like a normal build.
+package verifhook
+
+import (
+	"encoding/json"
+	"os"
+	"strconv"
+	"strings"
+	"sync"
+	"time"
+)
+
+// Enabled reports whether the hooks are compiled in.
+const Enabled = true
+
+var (
+	mu     sync.Mutex
+	seq    int64
+	out    *os.File
+	opened bool
+	src    = os.Getenv("VERIF_SRC")
+
+	// EmitFunc, if set by an in-process harness, receives every event
+	// (while the package mutex is held, so the order of calls is the order of
+	// sequence numbers).
+	EmitFunc func(rec map[string]interface{})
+
+	// GateFunc, if set by an in-process harness, is called at every gate and
+	// may block.
+	GateFunc func(point string, kv ...interface{})
+
+	delays     map[string]time.Duration
+	delaysOnce sync.Once
+)
+
+func openLocked() {
+	if opened {
+		return
+	}
+	opened = true
+	if name := os.Getenv("VERIF_TRACE"); name != "" {
+		f, err := os.OpenFile(name, os.O_APPEND|os.O_CREATE|os.O_WRONLY, 0644)
+		if err == nil {
+			out = f
+		}
+	}
+}
+
+// Emit records one event with the given key/value pairs.
+func Emit(ev string, kv ...interface{}) {
+	mu.Lock()
+	defer mu.Unlock()
+	openLocked()
+	if out == nil && EmitFunc == nil {
+		return
+	}
+	seq++
+	rec := map[string]interface{}{"ev": ev, "seq": seq, "pid": os.Getpid()}
+	if src != "" {
+		rec["src"] = src
+	}
+	for i := 0; i+1 < len(kv); i += 2 {
+		if k, ok := kv[i].(string); ok {
+			rec[k] = kv[i+1]
+		}
+	}
+	if EmitFunc != nil {
+		EmitFunc(rec)
+	}
+	if out != nil {
+		if line, err := json.Marshal(rec); err == nil {
+			out.Write(append(line, '\n'))
+		}
+	}
+}
+
+func loadDelays() {
+	delays = map[string]time.Duration{}
+	// VERIF_DELAY=point=ms,point2=ms
+	for _, part := range strings.Split(os.Getenv("VERIF_DELAY"), ",") {
+		kv := strings.SplitN(part, "=", 2)
+		if len(kv) != 2 {
+			continue
+		}
+		if ms, err := strconv.Atoi(kv[1]); err == nil {
+			delays[kv[0]] = time.Duration(ms) * time.Millisecond
+		}
+	}
+}
+
+// Gate marks a scheduling point: an in-process harness may block here
+// (GateFunc), and VERIF_DELAY can name points at which to sleep.
+func Gate(point string, kv ...interface{}) {
+	if g := GateFunc; g != nil {
+		g(point, kv...)
+		return
+	}
+	delaysOnce.Do(loadDelays)
+	if d, ok := delays[point]; ok && d > 0 {
+		time.Sleep(d)
+	}
+}
